@@ -1358,6 +1358,11 @@ where
                     // Sync
                     // Frontend (client) is asking for the query result now.
                     'S' => {
+                        // During COPY FROM STDIN Postgres ignores Sync and sends no reply.
+                        if server.in_copy_mode() {
+                            continue;
+                        }
+
                         debug!("Sending query to server");
 
                         match plugin_output {
@@ -1560,6 +1565,11 @@ where
 
                     // CopyData
                     'd' => {
+                        // Outside of COPY, Postgres ignores CopyData.
+                        if !server.in_copy_mode() {
+                            continue;
+                        }
+
                         self.buffer.put(&message[..]);
 
                         // Want to limit buffer size
@@ -1574,6 +1584,12 @@ where
                     // CopyDone or CopyFail
                     // Copy is done, successfully or not.
                     'c' | 'f' => {
+                        // Outside of COPY, Postgres ignores CopyDone and CopyFail and sends
+                        // no reply: waiting for one would hold the server forever.
+                        if !server.in_copy_mode() {
+                            continue;
+                        }
+
                         // We may already have some copy data in the buffer, add this message to buffer
                         self.buffer.put(&message[..]);
 
